@@ -268,6 +268,7 @@ func init() {
 		return e.tt.Ite(a[0].(*Term), a[1].(*Term), a[2].(*Term))
 	}
 	intrinsics[zz+"IteBool"] = intrinsics[zz+"IteInt"]
+	intrinsics[zz+"IteF"] = intrinsics[zz+"IteInt"]
 	intrinsics[zz+"B2I"] = func(e *Exec, fn *ssa.Function, a []Value, c *Frame) Value {
 		return e.tt.Ite(a[0].(*Term), e.tt.BVConst(1, 64), e.tt.BVConst(0, 64))
 	}
